@@ -41,9 +41,11 @@ type OCSPResp struct {
 	SignKey    *Key              // key that signs the response data
 	Responder  *x509.Certificate // responder identity for ResponderID (default Issuer)
 	Embed      []*x509.Certificate
+	EmbedRaw   [][]byte // raw items for the certs field (malformed cases)
 	Singles    []OCSPSingle
 	ProducedAt time.Time
 	Status     int                   // OCSPResponseStatus, 0 = successful
+	NoBytes    bool                  // successful status without responseBytes
 	RespType   asn1.ObjectIdentifier // nil: id-pkix-ocsp-basic
 	ZeroSig    bool                  // signature bytes all zero
 	TruncSig   bool                  // signature truncated to half
@@ -75,7 +77,7 @@ var OIDSHA1 = asn1.ObjectIdentifier{1, 3, 14, 3, 2, 26}
 
 // BuildOCSP encodes and signs the response.
 func BuildOCSP(r *OCSPResp) []byte {
-	if r.Status != 0 {
+	if r.Status != 0 || r.NoBytes {
 		var b cryptobyte.Builder
 		b.AddASN1(cbasn1.SEQUENCE, func(b *cryptobyte.Builder) { b.AddASN1Enum(int64(r.Status)) })
 		return b.BytesOrPanic()
@@ -181,11 +183,14 @@ func BuildOCSP(r *OCSPResp) []byte {
 		b.AddBytes(tbsDER)
 		b.AddBytes(algDER)
 		b.AddASN1BitString(sig)
-		if len(r.Embed) > 0 {
+		if len(r.Embed) > 0 || len(r.EmbedRaw) > 0 {
 			b.AddASN1(cbasn1.Tag(0).Constructed().ContextSpecific(), func(b *cryptobyte.Builder) {
 				b.AddASN1(cbasn1.SEQUENCE, func(b *cryptobyte.Builder) {
 					for _, c := range r.Embed {
 						b.AddBytes(c.Raw)
+					}
+					for _, raw := range r.EmbedRaw {
+						b.AddBytes(raw)
 					}
 				})
 			})
